@@ -69,6 +69,8 @@ struct Engine {
   struct Cons { z3::expr f; std::vector<Var> vars; };
   std::vector<Cons> pc;                                  // path condition, sliced per query
   std::unordered_map<Var, std::vector<int>> pc_idx;      // variable -> conjuncts mentioning it
+  std::unordered_map<Var, std::vector<Var>> users;       // variable -> atoms defined over it (persistent)
+  std::set<Var> pc_rel;                                  // variables mentioned by the path condition, with the arguments of such atoms
   std::unique_ptr<z3::model> model;                      // model of the last satisfiable query that asked for one
   std::vector<VarInfo> vars;
   std::vector<z3::expr> zvars;
@@ -223,6 +225,15 @@ static void pc_add(const z3::expr& f, std::initializer_list<const Poly*> polys) 
   int idx = (int)e.pc.size();
   e.pc.push_back(c);
   for (Var v : c.vars) e.pc_idx[v].push_back(idx);
+  std::vector<Var> work(c.vars.begin(), c.vars.end());
+  while (!work.empty()) { Var v = work.back(); work.pop_back(); if (!e.pc_rel.insert(v).second) continue;
+    for (auto& a : e.vars[v].args) for (auto& kv : a) for (Var u : kv.first) work.push_back(u);
+    if (e.vars[v].partner >= 0) work.push_back((Var)e.vars[v].partner); }
+}
+static void finish_atom(Var v) {
+  Engine& e = E();
+  std::set<Var> as; for (auto& a : e.vars[v].args) vars_of(a, as);
+  for (Var u : as) e.users[u].push_back(v);
 }
 
 static void atom_defs(Var v, std::vector<z3::expr>& out);
@@ -243,6 +254,7 @@ static z3::check_result query(const z3::expr* q, const std::set<Var>& qvars, uns
     for (auto& a : e.vars[v].args) for (auto& kv : a) for (Var u : kv.first) if (!vs.count(u)) work.push_back(u);
     if (e.vars[v].partner >= 0 && !vs.count((Var)e.vars[v].partner)) work.push_back((Var)e.vars[v].partner);
     if (isolated) continue;
+    { auto ut = e.users.find(v); if (ut != e.users.end()) for (Var u : ut->second) if (e.pc_rel.count(u) && !vs.count(u)) work.push_back(u); }
     auto it = e.pc_idx.find(v);
     if (it != e.pc_idx.end()) for (int ci : it->second) if (!inc[ci]) { inc[ci] = 1; for (Var u : e.pc[ci].vars) if (!vs.count(u)) work.push_back(u); }
   }
@@ -420,7 +432,7 @@ static SymReal sqrt_const(const mpq_class& c) {
       std::string key = "SQRTC:" + rest.get_str();
       int v = find_var(key);
       if (v < 0) { v = new_var(V_SQRT, "sqrt(" + rest.get_str() + ")", key);
-        VarInfo& vi = E().vars[v]; vi.args.push_back(p_const(mpq_class(rest))); vi.has_sq = true; vi.sq = p_const(mpq_class(rest)); }
+        VarInfo& vi = E().vars[v]; vi.args.push_back(p_const(mpq_class(rest))); vi.has_sq = true; vi.sq = p_const(mpq_class(rest)); finish_atom((Var)v); }
       acc = p_mul(acc, p_var((Var)v));
     }
   }
@@ -428,7 +440,7 @@ static SymReal sqrt_const(const mpq_class& c) {
     std::string key = "SQRTC:" + std::to_string(p);
     int v = find_var(key);
     if (v < 0) { v = new_var(V_SQRT, "sqrt(" + std::to_string(p) + ")", key);
-      VarInfo& vi = E().vars[v]; vi.args.push_back(p_const(mpq_class(p))); vi.has_sq = true; vi.sq = p_const(mpq_class(p)); }
+      VarInfo& vi = E().vars[v]; vi.args.push_back(p_const(mpq_class(p))); vi.has_sq = true; vi.sq = p_const(mpq_class(p)); finish_atom((Var)v); }
     acc = p_mul(acc, p_var((Var)v));
   }
   return mk(std::move(acc));
@@ -532,7 +544,7 @@ static SymReal sqrt_sym(const Poly& p) {
   std::string key = "SQRT:" + p_key(p0);
   int v = find_var(key);
   if (v < 0) { v = new_var(V_SQRT, "sqrt#" + std::to_string(e.vars.size()), key);
-    VarInfo& vi = e.vars[v]; vi.args.push_back(p0); vi.has_sq = true; vi.sq = p0; }
+    VarInfo& vi = e.vars[v]; vi.args.push_back(p0); vi.has_sq = true; vi.sq = p0; finish_atom((Var)v); }
   SymReal sc = sqrt_const(lc);
   return mk(p_mul(P(sc), p_var((Var)v)));
 }
@@ -561,7 +573,7 @@ static SymReal abs_sym(const Poly& p) {
   std::string key = "ABS:" + p_key(p0);
   int v = find_var(key);
   if (v < 0) { v = new_var(V_ABS, "abs#" + std::to_string(e.vars.size()), key);
-    VarInfo& vi = e.vars[v]; vi.args.push_back(p0); vi.has_sq = true; vi.sq = p_mul(p0, p0); }
+    VarInfo& vi = e.vars[v]; vi.args.push_back(p0); vi.has_sq = true; vi.sq = p_mul(p0, p0); finish_atom((Var)v); }
   return mk(p_scale(p_var((Var)v), lc < 0 ? mpq_class(-lc) : lc));
 }
 
@@ -619,7 +631,7 @@ static SymReal quot_sym(const Poly& num, const Poly& den) {
   std::string key = "QUOT:" + p_key(n0) + "/" + p_key(q0);
   int v = find_var(key);
   if (v < 0) { v = new_var(V_QUOT, "quot#" + std::to_string(e.vars.size()), key);
-    VarInfo& vi = e.vars[v]; vi.args.push_back(n0); vi.args.push_back(q0); }
+    VarInfo& vi = e.vars[v]; vi.args.push_back(n0); vi.args.push_back(q0); finish_atom((Var)v); }
   return mk(p_scale(p_var((Var)v), nc));
 }
 
@@ -641,7 +653,7 @@ static SymReal minmax_sym(const Poly& a, const Poly& b, bool is_max) {
   std::string key = std::string(is_max ? "MAX:" : "MIN:") + p_key(a) + "|" + p_key(b);
   int v = find_var(key);
   if (v < 0) { v = new_var(is_max ? V_MAX : V_MIN, std::string(is_max ? "max#" : "min#") + std::to_string(e.vars.size()), key);
-    VarInfo& vi = e.vars[v]; vi.args.push_back(a); vi.args.push_back(b); }
+    VarInfo& vi = e.vars[v]; vi.args.push_back(a); vi.args.push_back(b); finish_atom((Var)v); }
   return mk(p_var((Var)v));
 }
 
@@ -651,7 +663,7 @@ static SymReal uf_sym(const std::string& f, const std::vector<Poly>& args) {
   for (auto& a : args) key += "(" + p_key(a) + ")";
   int v = find_var(key);
   if (v < 0) { v = new_var(V_UF, f + "#" + std::to_string(e.vars.size()), key);
-    VarInfo& vi = e.vars[v]; vi.uf = f; vi.args = args; }
+    VarInfo& vi = e.vars[v]; vi.uf = f; vi.args = args; finish_atom((Var)v); }
   return mk(p_var((Var)v));
 }
 
@@ -695,6 +707,7 @@ static SC sincos_generic(const Poly& p) {
     e.vars[vs].partner = vc; e.vars[vc].partner = vs;
     // canonical rewriting: sin^2 -> 1 - cos^2
     e.vars[vs].has_sq = true; Poly one = p_const(1); Poly c2; c2[Mono{(Var)vc, (Var)vc}] = 1; e.vars[vs].sq = p_sub(one, c2);
+    finish_atom((Var)vs); finish_atom((Var)vc);
   }
   SC r; r.s = p_var((Var)vs); r.c = p_var((Var)vc); return r;
 }
@@ -763,7 +776,7 @@ static SymReal atan2_sym(const Poly& y, const Poly& x) {
   std::string key = "ANGLE:" + p_key(y) + "|" + p_key(x);
   int v = find_var(key);
   if (v < 0) { v = new_var(V_ANGLE, "ang#" + std::to_string(e.vars.size()), key);
-    VarInfo& vi = e.vars[v]; vi.args.push_back(y); vi.args.push_back(x); vi.args.push_back(P(h)); }
+    VarInfo& vi = e.vars[v]; vi.args.push_back(y); vi.args.push_back(x); vi.args.push_back(P(h)); finish_atom((Var)v); }
   return mk(p_var((Var)v));
 }
 
@@ -1179,7 +1192,7 @@ static void explore_case(const Case& c, CaseStats& st, const Policy& base_policy
     e.terms.clear(); e.terms.shrink_to_fit();
     e.decisions.clear(); e.choices.clear(); e.dpos = 0; e.branches_this_path = 0; e.uninit_counter = 0; e.path_symbolic = false;
     e.pol = base_policy;
-    e.pc.clear(); e.pc_idx.clear(); e.model.reset(); e.in_path = true;
+    e.pc.clear(); e.pc_idx.clear(); e.pc_rel.clear(); e.model.reset(); e.in_path = true;
     e.magic.clear(); e.magic_of.clear();
     log << "{\"type\":\"path\",\"name\":\"" << jesc(c.name) << "\",\"prefix\":" << jints(e.prefix) << "}" << std::endl;
     st.paths++;
